@@ -108,7 +108,7 @@ func printFuncResult(r *FuncResult, verbose bool) {
 		if or.Status != "proved" || verbose {
 			fmt.Printf("   %-10s %-60s [%s] %s %.2fs  %s\n", or.Status, or.Ob.Name, strings.Join(or.Ob.Tags, ","), or.Solver, or.Seconds, or.Ob.Pos)
 			if or.Status != "proved" {
-				fmt.Printf("              clause: %s\n              solvers: %s\n", or.Ob.Text, or.Detail)
+				fmt.Printf("              clause: %s\n              solvers: %s\n", or.Ob.Text, truncate(or.Detail, 400))
 			}
 		}
 	}
